@@ -265,6 +265,7 @@ func ru64(r *hx.Rng) uint64 {
 		return r.U64()
 	}
 }
+
 // badChains: Go strings that are not UTF-8 (a Go string may hold any bytes; protobuf-go refuses them on marshal)
 var badChains = []string{"\xff", "chain-\xc3", "\xed\xa0\x80", "a\xf8\x88\x80\x80\x80", "\xc0\xaf"}
 
@@ -423,12 +424,29 @@ func genC12(r *hx.Rng, tier string, w io.Writer) {
 		h := types.Header{BaseHeader: types.BaseHeader{ChainID: "\xff", Height: 5}}
 		fmt.Fprintln(w, "enc-header", headerArgs(&h)+headerNe(&h))
 	}
-	priv, pub := detKey(7)
-	addr := types.KeyAddress(pub)
-	pk, _ := crypto.MarshalPublicKey(pub)
+	if tier == "thorough" {
+		// one cache file beyond any plausible read buffer: 72 MiB of items (the thorough tier can afford it)
+		fmt.Fprintln(w, "cache-big n=72 size=1048576")
+	}
+	// every scenario has its own genuine signer (even key seed) and a foreign key (odd seed): package-level state
+	// of the code under test, if there is any, has not met the signer before
+	var priv crypto.PrivKey
+	var pub, foreign crypto.PubKey
+	var addr []byte
 	for i := 0; i < n; i++ {
 		if i%50 == 0 {
+			fmt.Fprintln(w, "recheck")
 			fmt.Fprintln(w, "reset")
+			scen := i / 50
+			priv, pub = detKey(byte(10 + 2*(scen%100)))
+			_, foreign = detKey(byte(11 + 2*(scen%100)))
+			addr = types.KeyAddress(pub)
+			if scen%2 == 0 { // junk naming the genuine signer's address with the foreign key BEFORE any genuine message
+				junkLines(r, w, addr, foreign)
+			}
+		}
+		if i%50 == 25 { // … and in the middle of the genuine ones
+			junkLines(r, w, addr, foreign)
 		}
 		h := rheader(r)
 		d := rdata(r, 12)
@@ -477,7 +495,6 @@ func genC12(r *hx.Rng, tier string, w io.Writer) {
 		sdb, _ = sd.MarshalBinary()
 		sdLine := fmt.Sprintf("%s sig=%s %s%s", dataArgs(&d), hx.Hex(sd.Signature), showSigner(&sd.Signer), sdNe(&sd))
 		fmt.Fprintln(w, "enc-sd", sdLine)
-		_ = pk
 		// state (types.State <-> pb.State, the store's UpdateState / GetState)
 		st, loc := rstate(r)
 		if p, err := st.ToProto(); err == nil {
@@ -570,6 +587,7 @@ func genC12(r *hx.Rng, tier string, w io.Writer) {
 			fmt.Fprintf(w, "dec-%s b=%s%s\n", dec, hx.Hex(in), extra)
 		}
 	}
+	fmt.Fprintln(w, "recheck")
 }
 
 // goldenOps: the fixed values whose exact bytes and hashes are pinned in /verif/golden/C12.lean (facts.go)
@@ -625,19 +643,42 @@ func deqHit(c *hx.Ctx, what string, eq bool) string {
 	return b01(eq)
 }
 
+// runC12: one observation line per op. Every op that is a function of its own line (everything but the cache-file
+// ops, which are kept out for their cost) is remembered with its observation; `recheck` runs them again in other
+// histories (see recheck).
 func runC12(c *hx.Ctx) {
+	var rec []opObs
 	for {
 		o, ok := c.Next()
 		if !ok {
 			return
 		}
 		c.Hit(o.Verb)
+		var out string
+		switch {
+		case o.Verb == "reset":
+			rec = nil
+			out = "ok"
+		case o.Verb == "recheck":
+			out = guard(c, "recheck", func() string { return recheck(c, rec) })
+		default:
+			out = execOp(c, o)
+			if !strings.HasPrefix(o.Verb, "cache-") {
+				rec = append(rec, opObs{o.Raw, o.Verb, out})
+			}
+		}
+		c.Emit("%s", out)
+	}
+}
+
+func execOp(c *hx.Ctx, o hx.Op) string {
+	{
 		switch o.Verb {
 		case "reset":
-			c.Emit("ok")
+			return "ok"
 		case "enc-header":
 			h := headerOfOp(o)
-			c.Emit("%s", guard(c, "enc-header", func() string {
+			return guard(c, "enc-header", func() string {
 				b, err := h.MarshalBinary()
 				if err != nil {
 					encErr(c, "header", h.ChainID(), err)
@@ -650,10 +691,10 @@ func runC12(c *hx.Ctx) {
 					c.Report("C12/roundtrip/header/differs", showHeader(&h)+" -> "+showHeader(&h2))
 				}
 				return fmt.Sprintf("bytes=%s hash=%s deq=%s", hx.Hex(b), hx.Hex(h.Hash()), deqHit(c, "header", reflect.DeepEqual(h, h2)))
-			}))
+			})
 		case "enc-meta":
 			m := metaOfOp(o)
-			c.Emit("%s", guard(c, "enc-meta", func() string {
+			return guard(c, "enc-meta", func() string {
 				b, err := m.MarshalBinary()
 				if err != nil {
 					encErr(c, "metadata", m.ChainID, err)
@@ -664,10 +705,10 @@ func runC12(c *hx.Ctx) {
 					c.Report("C12/roundtrip/metadata/differs", showMeta(m))
 				}
 				return "bytes=" + hx.Hex(b) + " deq=" + deqHit(c, "metadata", reflect.DeepEqual(*m, m2))
-			}))
+			})
 		case "enc-data":
 			d := dataOfOp(o)
-			c.Emit("%s", guard(c, "enc-data", func() string {
+			return guard(c, "enc-data", func() string {
 				b, err := d.MarshalBinary()
 				if err != nil {
 					dataEncErr(c, "data", &d, err)
@@ -675,10 +716,10 @@ func runC12(c *hx.Ctx) {
 				}
 				eq := checkDataRoundTrip(c, &d, b)
 				return fmt.Sprintf("bytes=%s hash=%s dac=%s deq=%s", hx.Hex(b), hx.Hex(d.Hash()), hx.Hex(d.DACommitment()), deqHit(c, "data", eq))
-			}))
+			})
 		case "enc-sh":
 			sh := types.SignedHeader{Header: headerOfOp(o), Signature: gb(o, "sig"), Signer: signerOfOp(o)}
-			c.Emit("%s", guard(c, "enc-sh", func() string {
+			return guard(c, "enc-sh", func() string {
 				b, err := sh.MarshalBinary()
 				if err != nil {
 					encErr(c, "signedheader", sh.ChainID(), err)
@@ -692,10 +733,10 @@ func runC12(c *hx.Ctx) {
 				}
 				eq := checkSHRoundTrip(c, &sh, b)
 				return fmt.Sprintf("bytes=%s hash=%s deq=%s", hx.Hex(b), hx.Hex(sh.Hash()), deqHit(c, "signedheader", eq))
-			}))
+			})
 		case "enc-sd":
 			sd := types.SignedData{Data: dataOfOp(o), Signature: gb(o, "sig"), Signer: signerOfOp(o)}
-			c.Emit("%s", guard(c, "enc-sd", func() string {
+			return guard(c, "enc-sd", func() string {
 				b, err := sd.MarshalBinary()
 				if err != nil {
 					dataEncErr(c, "signeddata", &sd.Data, err)
@@ -730,10 +771,10 @@ func runC12(c *hx.Ctx) {
 					}
 				}
 				return fmt.Sprintf("bytes=%s hash=%s dac=%s deq=%s", hx.Hex(b), hx.Hex(sd.Data.Hash()), hx.Hex(sd.Data.DACommitment()), deqHit(c, "signeddata", eq))
-			}))
+			})
 		case "dec-header":
 			b := o.Bytes("b")
-			c.Emit("%s", guard(c, "dec-header", func() string {
+			return guard(c, "dec-header", func() string {
 				var h types.Header
 				if err := h.UnmarshalBinary(b); err != nil {
 					return "err"
@@ -744,10 +785,10 @@ func runC12(c *hx.Ctx) {
 					c.Report("C12/decode-not-canonical/header", hx.Hex(b))
 				}
 				return fmt.Sprintf("ok %s re=%s hash=%s", showHeader(&h), hx.Hex(re), hx.Hex(h.Hash()))
-			}))
+			})
 		case "dec-meta":
 			b := o.Bytes("b")
-			c.Emit("%s", guard(c, "dec-meta", func() string {
+			return guard(c, "dec-meta", func() string {
 				var m types.Metadata
 				if err := m.UnmarshalBinary(b); err != nil {
 					return "err"
@@ -758,10 +799,10 @@ func runC12(c *hx.Ctx) {
 					c.Report("C12/decode-not-canonical/metadata", hx.Hex(b))
 				}
 				return fmt.Sprintf("ok %s re=%s", showMeta(&m), hx.Hex(re))
-			}))
+			})
 		case "dec-data":
 			b := o.Bytes("b")
-			c.Emit("%s", guard(c, "dec-data", func() string {
+			return guard(c, "dec-data", func() string {
 				var d types.Data
 				if err := d.UnmarshalBinary(b); err != nil {
 					return "err"
@@ -772,10 +813,10 @@ func runC12(c *hx.Ctx) {
 					c.Report("C12/decode-not-canonical/data", hx.Hex(b))
 				}
 				return fmt.Sprintf("ok %s re=%s hash=%s dac=%s", showData(&d), hx.Hex(re), hx.Hex(d.Hash()), hx.Hex(d.DACommitment()))
-			}))
+			})
 		case "dec-sh":
 			b := o.Bytes("b")
-			c.Emit("%s", guard(c, "dec-sh", func() string {
+			return guard(c, "dec-sh", func() string {
 				var sh types.SignedHeader
 				if err := sh.UnmarshalBinary(b); err != nil {
 					return "err"
@@ -789,10 +830,10 @@ func runC12(c *hx.Ctx) {
 					c.Report("C12/decode-not-canonical/signedheader", hx.Hex(b))
 				}
 				return fmt.Sprintf("ok %s sig=%s %s re=%s", showHeader(&sh.Header), hx.Hex(sh.Signature), showSigner(&sh.Signer), hx.Hex(re))
-			}))
+			})
 		case "dec-sd":
 			b := o.Bytes("b")
-			c.Emit("%s", guard(c, "dec-sd", func() string {
+			return guard(c, "dec-sd", func() string {
 				var sd types.SignedData
 				if err := sd.UnmarshalBinary(b); err != nil {
 					return "err"
@@ -806,20 +847,20 @@ func runC12(c *hx.Ctx) {
 					c.Report("C12/decode-not-canonical/signeddata", hx.Hex(b))
 				}
 				return fmt.Sprintf("ok %s sig=%s %s re=%s dac=%s", showData(&sd.Data), hx.Hex(sd.Signature), showSigner(&sd.Signer), hx.Hex(re), hx.Hex(sd.Data.DACommitment()))
-			}))
+			})
 		case "bd-enc":
 			l := o.List("list")
-			c.Emit("%s", guard(c, "bd-enc", func() string {
+			return guard(c, "bd-enc", func() string {
 				b := block.VerifBatchDataToBytes(l)
 				back, err := block.VerifBytesToBatchData(b)
 				if err != nil || hx.HexList(back) != hx.HexList(l) {
 					c.Report("C12/roundtrip/batch-data/differs", hx.HexList(l))
 				}
 				return "bytes=" + hx.Hex(b)
-			}))
+			})
 		case "bd-dec":
 			b := o.Bytes("b")
-			c.Emit("%s", guard(c, "bd-dec", func() string {
+			return guard(c, "bd-dec", func() string {
 				// the blob is a view into a larger buffer: reading past its end must not go unnoticed
 				buf := append(append([]byte(nil), b...), 0xAA, 0xBB, 0xCC, 0xDD, 0xEE, 0xFF, 0x11, 0x22)[:len(b)]
 				l, err := block.VerifBytesToBatchData(buf)
@@ -830,22 +871,23 @@ func runC12(c *hx.Ctx) {
 					c.Report("C12/decode-not-canonical/batch-data", hx.Hex(b))
 				}
 				return "ok list=" + hx.HexList(l)
-			}))
+			})
 		case "enc-state":
-			c.Emit("%s", guard(c, "enc-state", func() string { return encState(c, o) }))
+			return guard(c, "enc-state", func() string { return encState(c, o) })
 		case "dec-state":
 			b := o.Bytes("b")
-			c.Emit("%s", guard(c, "dec-state", func() string { return decState(c, b) }))
+			return guard(c, "dec-state", func() string { return decState(c, b) })
 		case "cache-sh", "cache-data":
-			c.Emit("%s", guard(c, o.Verb, func() string { return cacheRoundTrip(c, o) }))
+			return guard(c, o.Verb, func() string { return cacheRoundTrip(c, o) })
 		case "cache-load":
-			c.Emit("%s", guard(c, "cache-load", func() string { return cacheLoad(c, o) }))
+			return guard(c, "cache-load", func() string { return cacheLoad(c, o) })
+		case "cache-big":
+			return guard(c, "cache-big", func() string { return cacheBig(c, o) })
 		case "cache-trunc":
-			c.Emit("%s", guard(c, "cache-trunc", func() string { return cacheTrunc(c, o) }))
-		default:
-			c.Emit("bad-op")
+			return guard(c, "cache-trunc", func() string { return cacheTrunc(c, o) })
 		}
 	}
+	return "bad-op"
 }
 
 // dataEncErr: Data.MarshalBinary refused d (chain id of the metadata not UTF-8). Data.Hash has no error result: it
